@@ -1,4 +1,5 @@
 import TextxVerif.Proofs.Resolve
+import TextxVerif.Proofs.ResolveAttrs
 /-!
 # C09 — postponed resolution reaches the right fixpoint and terminates
 
@@ -10,8 +11,16 @@ reference into a postponed one.  `Derivable P refs r` is the order-free
 statement "some order of resolving references lets `r` resolve given the ones
 resolved before it".
 
+The *result* of a load is the value of every reference attribute.  A
+single-valued attribute holds the target of its one reference as soon as the
+reference is in the resolved set.  A list-valued attribute of one object is
+described by its references `L` in textual order (`LRef`: id, text position,
+target); `attrAfter L seq` is its content after the loop resolved `seq`
+(`resolve_one_step` inserts at the `bisect` index of the position, one position
+list per object and attribute).
+
 Only property theorems and non-vacuity examples live here; lemmas are in
-`Proofs/Resolve.lean`.
+`Proofs/Resolve.lean` and `Proofs/ResolveAttrs.lean`.
 -/
 namespace Resolve
 
@@ -83,6 +92,55 @@ theorem C09_order_indep (P : Provider) (refs refs' : List Ref) (hperm : refs.Per
   exact ⟨Derivable.congr P _ _ (fun y hy => hperm.symm.subset hy) x,
          Derivable.congr P _ _ (fun y hy => hperm.subset hy) x⟩
 
+/-- **Result of list-valued references.** Whatever rounds the references of a
+list attribute `L` got resolved in, the attribute ends up holding, in the order
+they are written, exactly those of its references that are resolved (derivable):
+no reference of another object or attribute, no duplicate, no reordering.
+(`keep` is the decision "this reference is derivable"; `Derivable` itself is a
+proposition, so the filter is stated through a Boolean function equivalent to it.) -/
+theorem C09_list_result (P : Provider) (refs : List Ref) (hnd : refs.Nodup) (n : Nat)
+    (hn : refs.length < n) (L : List LRef) (hpos : L.Pairwise (fun a b => a.pos < b.pos))
+    (hid : L.Pairwise (fun a b => a.id ≠ b.id)) :
+    ∃ keep : LRef → Bool, (∀ l, keep l = true ↔ Derivable P refs l.id) ∧
+      attrAfter L (loop P n refs []).2.reverse = L.filter keep := by
+  refine ⟨fun l => decide (l.id ∈ (loop P n refs []).2), ?_, ?_⟩
+  · intro l
+    simp only [decide_eq_true_eq]
+    exact C09_lfp P refs n hn l.id
+  · exact attrAfter_eq_filter L hpos hid _ (loop_res_nodup P n refs [] hnd List.nodup_nil (by simp))
+
+/-- …so on success a list attribute whose references all belong to the loaded
+models is exactly its references in textual order. -/
+theorem C09_list_success (P : Provider) (refs : List Ref) (hnd : refs.Nodup) (n : Nat)
+    (hn : refs.length < n) (L : List LRef) (hpos : L.Pairwise (fun a b => a.pos < b.pos))
+    (hid : L.Pairwise (fun a b => a.id ≠ b.id)) (hsub : ∀ l, l ∈ L → l.id ∈ refs)
+    (hok : (loop P n refs []).1 = []) :
+    attrAfter L (loop P n refs []).2.reverse = L := by
+  obtain ⟨keep, hkeep, heq⟩ := C09_list_result P refs hnd n hn L hpos hid
+  rw [heq]
+  refine List.filter_eq_self.2 ?_
+  intro l hl
+  exact (hkeep l).2 ((C09_success_iff P refs hnd n hn).1 hok l.id (hsub l hl))
+
+/-- **Order independence of the result.** Any reordering of the references
+(any round-robin interleaving over model files, any position of the objects in
+the files) leaves every list attribute with the same content. -/
+theorem C09_list_order_indep (P : Provider) (refs refs' : List Ref) (hperm : refs.Perm refs')
+    (hnd : refs.Nodup) (n : Nat) (hn : refs.length < n) (L : List LRef)
+    (hpos : L.Pairwise (fun a b => a.pos < b.pos)) (hid : L.Pairwise (fun a b => a.id ≠ b.id)) :
+    attrAfter L (loop P n refs' []).2.reverse = attrAfter L (loop P n refs []).2.reverse := by
+  have hn' : refs'.length < n := by rw [← hperm.length_eq]; exact hn
+  obtain ⟨k, hk, heq⟩ := C09_list_result P refs hnd n hn L hpos hid
+  obtain ⟨k', hk', heq'⟩ := C09_list_result P refs' (hperm.nodup_iff.1 hnd) n hn' L hpos hid
+  rw [heq, heq']
+  refine List.filter_congr ?_
+  intro l _
+  have h : k' l = true ↔ k l = true := by
+    rw [hk, hk']
+    exact ⟨Derivable.congr P _ _ (fun y hy => hperm.symm.subset hy) l.id,
+           Derivable.congr P _ _ (fun y hy => hperm.subset hy) l.id⟩
+  cases h1 : k' l <;> cases h2 : k l <;> simp_all
+
 /-! ## non-vacuity: a concrete provider with a chain, a cycle and a dead reference -/
 
 /-- reference 0 is free, 1 waits for 0, 2 and 3 wait for each other, 4 waits for 2 -/
@@ -99,5 +157,15 @@ def exP : Provider where
 example : loop exP 6 [4, 3, 2, 1, 0] [] = ([4, 3, 2], [1, 0]) := by decide
 example : loop exP 6 [1, 0] [] = ([], [1, 0]) := by decide
 example : [4, 3, 2, 1, 0].Nodup ∧ [4, 3, 2, 1, 0].length < 6 := by decide
+
+/-- two objects of one class: `g1: r0` and `g2: r1, r5` where 1 waits for 0 and 0
+comes last in the pass, so that 5 is inserted a round before 1 -/
+example : (loop exP 4 [1, 5, 0] []).2.reverse = [5, 0, 1] := by decide
+example : attrAfter [⟨1, 20, 101⟩, ⟨5, 24, 105⟩] (loop exP 4 [1, 5, 0] []).2.reverse =
+    [⟨1, 20, 101⟩, ⟨5, 24, 105⟩] := by decide
+example : attrAfter [⟨0, 10, 100⟩] (loop exP 4 [1, 5, 0] []).2.reverse = [⟨0, 10, 100⟩] := by decide
+/-- a list with a never-resolving reference keeps the others in textual order -/
+example : attrAfter [⟨2, 10, 102⟩, ⟨1, 20, 101⟩, ⟨0, 30, 100⟩] (loop exP 6 [4, 3, 2, 1, 0] []).2.reverse =
+    [⟨1, 20, 101⟩, ⟨0, 30, 100⟩] := by decide
 
 end Resolve
